@@ -136,10 +136,14 @@ impl Property for C07 {
         judge(format!("distance:{ta}/{tb}"), euclid(&ga, &gb), obs);
         judge(format!("distance:{tb}/{ta}"), euclid(&gb, &ga), obs);
         judge(format!("distance:Geometry[{ta}]/Geometry[{tb}]"), guard(std::panic::AssertUnwindSafe(|| Euclidean.distance(&ga, &gb))), obs);
-        for r in 0..2u64 {
+        for r in 0..3u64 {
             let sel = crate::engine::splitmix64(c.vsel ^ r);
-            let (va, vb) = if r == 0 { (variant(&c.a, sel), c.b.clone()) } else { (c.a.clone(), variant(&c.b, sel)) };
-            if !(in_relate_domain(&va) && in_relate_domain(&vb)) || va.is_empty() || vb.is_empty() {
+            let (va, vb) = match r {
+                0 => (variant(&c.a, sel), c.b.clone()),
+                1 => (c.a.clone(), variant(&c.b, sel)),
+                _ => if sel & 1 == 0 { (crate::conv::noisy(&c.a, sel), c.b.clone()) } else { (c.a.clone(), crate::conv::noisy(&c.b, sel)) },
+            };
+            if !(in_relate_domain(&crate::conv::denoise(&va)) && in_relate_domain(&crate::conv::denoise(&vb))) || va.is_empty() || vb.is_empty() {
                 continue;
             }
             let (gva, gvb) = (to_geo(&va, &c.xf), to_geo(&vb, &c.xf));
